@@ -123,8 +123,13 @@ def gen_capacity(ctx, k, cap=None, fill=None):
             # the interface announces another capacity in mid-session (lower or higher), with messages waiting in the send buffer: what was
             # accepted stays accepted; packets filled from now on obey the new value (the bound checked here is the largest one in force so far)
             c2 = rng.choice([0, 10, 64, 65, 100, 128, 200, 255])
-            sc.add(up(model.build_msg((0, 0, 0), 0, model.C('MSG_PKT_CAPACITY'), bytes([c2]))), 'quiesce')
-            eff = max(eff, c2)
+            if rng.random() < 0.4:
+                # ... or some OTHER node reports the capacity of its own sub-bus (the answer to a bidib_send_get_pkt_capacity of the application,
+                # say): that is not the interface the packets are written to
+                sc.add(up(model.build_msg(rng.choice([(5, 0, 0), (1, 2, 0), (9, 8, 7)]), 0, model.C('MSG_PKT_CAPACITY'), bytes([rng.choice([200, 255, 255])]))), 'quiesce')
+            else:
+                sc.add(up(model.build_msg((0, 0, 0), 0, model.C('MSG_PKT_CAPACITY'), bytes([c2]))), 'quiesce')
+                eff = max(eff, c2)
         if rng.random() < 0.08:
             sc.add('flush')
     sc.add('flush', 'quiesce', 'mark done', 'stop')
